@@ -540,7 +540,7 @@ class Dimension:
         if degree == 0:
             return Number
 
-        if any(s // degree != s / degree for s in self.exponents):
+        if any(s % degree != 0 for s in self.exponents):
             raise FractionalDimensionError(degree, self)
 
         return Dimension(tuple(s // degree for s in self.exponents))
@@ -869,7 +869,7 @@ class Prefix:
         if degree == 0:
             return IdentityPrefix
 
-        if self.exponent // degree != self.exponent / degree:
+        if self.exponent % degree != 0:
             raise FractionalDimensionError(degree, self)
 
         return Prefix(self.base, int(self.exponent // degree))
@@ -1331,7 +1331,7 @@ class Unit:
         prefix = self.prefix.root(degree)
 
         if any(
-            exponent // degree != exponent / degree
+            exponent % degree != 0
             for unit, exponent in self.factors.items()
             if unit is not One
         ):
